@@ -163,8 +163,10 @@ Qed.
 Theorem refusal_iff_exhausted L s e : linv L s -> plain e = true -> refusal (snd (lstep L s e)) = should_refuse L s e.
 Proof.
   intros I Hplain. unfold should_refuse. destruct e.
-  - cbn [lstep demand exhausted]. rewrite <- (li_ninc _ _ I).
-    destruct (max_incomplete_connections L <=? s_nincomplete s); reflexivity.
+  - cbn [lstep demand exhausted]. rewrite <- (li_ninc _ _ I). rewrite (li_watches _ _ I). unfold watches_for. rewrite negb_involutive.
+    destruct (max_incomplete_connections L <=? s_nincomplete s) eqn:E; [reflexivity|].
+    (* the assertion of bus_connections_setup_connection holds: accepting is only enabled below the limit *)
+    apply N.leb_gt in E. replace (max_incomplete_connections L <? s_nincomplete s + 1) with false by (symmetry; apply N.ltb_ge; lia). reflexivity.
   - cbn [lstep demand]. destruct (find_cd (s_cdata s) c) as [d|]; [|reflexivity]. destruct (d_auth d); reflexivity.
   - rewrite hello_refusal. cbn [demand]. unfold connected, registered, authenticated, uid_of.
     destruct (find_conn (s_conns s) c) as [cn|] eqn:Hf; [|reflexivity].
@@ -191,8 +193,9 @@ Proof.
   - cbn [lstep demand]. destruct (find_conn (s_conns s) c) as [cn|]; [|reflexivity].
     destruct (negb (c_active cn)); [apply disconnect_no_refusal | apply refusal_signals].
   - cbn [lstep demand]. destruct (find_conn (s_conns s) c) as [cn|]; [|reflexivity].
-    destruct (too_long L hdr); [apply disconnect_no_refusal | reflexivity].
+    destruct (find_cd (s_cdata s) c) as [d|]; [|reflexivity].
+    destruct (too_long_at (d_maxmsg d) hdr); [apply disconnect_no_refusal | reflexivity].
 Qed.
 
 Theorem refused_exactly_when_exhausted_proved : refused_exactly_when_exhausted.
-Proof. intros L H h e Hp. cbv zeta. apply refusal_iff_exhausted; [|exact Hp]. apply reachable_linv. unfold all_at_least_one in H. tauto. Qed.
+Proof. intros L H h e Hp. cbv zeta. apply refusal_iff_exhausted; [|exact Hp]. apply reachable_linv. apply all_at_least_one_usable. exact H. Qed.
